@@ -1,6 +1,6 @@
 (* Property C04 -- live replication converges: every node ends equal to the primary *)
 (* Statements only: each theorem restates the proved lemma's statement and is closed by [exact]. *)
-From NunDB Require Import Model.Base Model.Pending Model.Parse Model.Node Model.Oplog Model.Cluster Proofs.PendingProofs Proofs.DbProofs Proofs.ClusterProofs Proofs.SyncProofs.
+From NunDB Require Import Model.Base Model.Pending Model.Parse Model.Node Model.Oplog Model.Cluster Proofs.PendingProofs Proofs.DbProofs Proofs.ClusterProofs Proofs.SyncProofs Proofs.ConvergeProofs.
 Local Open Scope Z_scope.
 
 (* the line a primary broadcasts for a write parses back to exactly that write (any value with spaces, any i32 version) *)
@@ -231,3 +231,135 @@ Theorem C04_replay_order_matters :
          live (fold_left db_apply [DSet "k" "b" (-1) 2; DSet "k" "a" (-1) 1] d) "k" = Some "a".
 Proof. exact replay_order_matters. Qed.
 Print Assumptions C04_replay_order_matters.
+
+(* UNBOUNDED SCHEDULES, cluster level: from a formed cluster (one primary, any number of secondaries, links established), after ANY interleaving of client writes on the primary (set / remove / increment), replication-thread polls, link deliveries, acknowledgement deliveries and secondary polls, whenever nothing is in flight every secondary holds the primary's keys, values, versions and removed/live status *)
+Theorem C04_converges :
+  forall (P dbn : str) (Ss : list str) (cidx : nat) (lk : str -> nat) (c : cluster) 
+           (evs : list cev) (B : N),
+         simple_tok dbn ->
+         (forall S : str, In S Ss -> simple_tok S) ->
+         Formed P dbn Ss cidx lk c ->
+         Forall (ev_ok Ss) evs ->
+         cl_bound c B ->
+         (B + 2 * N.of_nat (Datatypes.length evs) <= 2 ^ 64)%N ->
+         quiescent P Ss lk (run P cidx lk c evs) ->
+         exists dp : db,
+           db_of dbn (run P cidx lk c evs) P = Some dp /\
+           (forall S : str,
+            In S Ss -> exists ds : db, db_of dbn (run P cidx lk c evs) S = Some ds /\ dbrel dp ds).
+Proof. exact C04_converges. Qed.
+Print Assumptions C04_converges.
+
+(* the invariant: the primary's database = a secondary's database with the operations in flight towards it applied in order *)
+Theorem C04_convergence_invariant :
+  forall (P dbn : str) (Ss : list str) (cidx : nat) (lk : str -> nat) (c : cluster) 
+           (evs : list cev) (B : N),
+         simple_tok dbn ->
+         (forall S : str, In S Ss -> simple_tok S) ->
+         Formed P dbn Ss cidx lk c ->
+         Forall (ev_ok Ss) evs ->
+         cl_bound c B ->
+         (B + 2 * N.of_nat (Datatypes.length evs) <= 2 ^ 64)%N -> RInv P dbn Ss lk (run P cidx lk c evs).
+Proof. exact C04_convergence_invariant. Qed.
+Print Assumptions C04_convergence_invariant.
+
+Theorem C04_converges_reads :
+  forall (P dbn : str) (Ss : list str) (cidx : nat) (lk : str -> nat) (c : cluster) 
+           (evs : list cev) (B : N),
+         simple_tok dbn ->
+         (forall S : str, In S Ss -> simple_tok S) ->
+         Formed P dbn Ss cidx lk c ->
+         Forall (ev_ok Ss) evs ->
+         cl_bound c B ->
+         (B + 2 * N.of_nat (Datatypes.length evs) <= 2 ^ 64)%N ->
+         quiescent P Ss lk (run P cidx lk c evs) ->
+         exists dp : db,
+           db_of dbn (run P cidx lk c evs) P = Some dp /\
+           (forall S : str,
+            In S Ss ->
+            exists ds : db,
+              db_of dbn (run P cidx lk c evs) S = Some ds /\
+              (forall k : str, live dp k = live ds k /\ get_key_value_new dp k = get_key_value_new ds k)).
+Proof. exact C04_converges_reads. Qed.
+Print Assumptions C04_converges_reads.
+
+(* an accepted write on the primary puts exactly one line on every link, the same for every secondary, FIFO *)
+Theorem C04_primary_write_queues :
+  forall (P dbn : str) (Ss : list str) (cidx : nat) (lk : str -> nat) (c : cluster) (w : cop) (B : N),
+         simple_tok dbn ->
+         (forall S : str, In S Ss -> simple_tok S) ->
+         Formed P dbn Ss cidx lk c ->
+         cop_ok w ->
+         cl_bound c B ->
+         (B + 2 <= 2 ^ 64)%N ->
+         resp_ok (snd (client_cmd c P cidx (cop_line w))) = true ->
+         let c2 := poll_repl_c (fst (client_cmd c P cidx (cop_line w))) P in
+         exists (dp : db) (opp id : N),
+           db_of dbn c P = Some dp /\
+           resp_ok (dop_resp dp (cop_dop w opp)) = true /\
+           db_of dbn c2 P = Some (db_apply dp (cop_dop w opp)) /\
+           (forall (S : str) (l : link),
+            In S Ss ->
+            nth_error (c_links c) (lk S) = Some l ->
+            exists l2 : link,
+              nth_error (c_links c2) (lk S) = Some l2 /\
+              l_q l2 = l_q l ++ [rp_line id (op_req dbn (cop_dop w opp))]).
+Proof. exact primary_write_queues. Qed.
+Print Assumptions C04_primary_write_queues.
+
+(* a replicated line applies the same operation at the secondary, queues nothing there and is answered by exactly 'ack <id> <node>' and 'ok' *)
+Theorem C04_replicated_line_applies :
+  forall (n : node) (sv : nat) (dbn : str) (d : db) (id : N) (o : dop),
+         simple_tok dbn ->
+         simple_tok (n_addr n) ->
+         op_wf o ->
+         (id < 2 ^ 64)%N ->
+         s_auth (get_sess n sv) = true ->
+         s_db (get_sess n sv) = None ->
+         s_inbox (get_sess n sv) = [] ->
+         get_db n dbn = Some d ->
+         d_strat d = SNone ->
+         no_watch d sv ->
+         let
+         '(n1, r) := step n sv (rp_line id (op_req dbn o)) in
+          let status := match r with
+                        | RError msg => "error " +++ msg +++ " " +++ nlS
+                        | _ => "ok " +++ nlS
+                        end in
+          let
+          '(n3, inbox) := drain (send n1 sv status) sv in
+           exists o' : dop,
+             same_op o o' /\
+             get_db n3 dbn = Some (db_apply d o') /\
+             n_members n3 = n_members n /\
+             n_pending n3 = n_pending n /\
+             n_role n3 = n_role n /\ split_lines inbox = [ack_text id (n_addr n); "ok"].
+Proof. exact replicated_line_applies. Qed.
+Print Assumptions C04_replicated_line_applies.
+
+(* non-vacuity: a cluster built through the model's own join machinery satisfies the hypotheses *)
+Theorem C04_formed_example :
+  Formed "p1" "d" ["s1"; "s2"] 0 ex_lk ex_c.
+Proof. exact formed_example. Qed.
+Print Assumptions C04_formed_example.
+
+Theorem C04_formed_run_converges :
+  exists dp : db,
+           db_of "d" (run "p1" 0 ex_lk ex_c ex_evs) "p1" = Some dp /\
+           (forall S : string,
+            In S ["s1"; "s2"] ->
+            exists ds : db, db_of "d" (run "p1" 0 ex_lk ex_c ex_evs) S = Some ds /\ dbrel dp ds).
+Proof. exact formed_run_converges. Qed.
+Print Assumptions C04_formed_run_converges.
+
+(* why convergence is stated up to the per-node operation id stamped on replicated writes *)
+Theorem C04_opp_ids_differ :
+  match db_of "d" ex_final "p1" with
+         | Some a => match db_of "d" ex_final "s1" with
+                     | Some b => d_map a <> d_map b
+                     | None => False
+                     end
+         | None => False
+         end.
+Proof. exact formed_run_opp_differs. Qed.
+Print Assumptions C04_opp_ids_differ.
